@@ -42,7 +42,8 @@ def emit(pairs, check_fn=None):
             names |= H.tree_input_params(imp["tree"])
         rng = lib.Rng(f"pts-{lib.case_hash(case)}")
         pts = H.points_to_coq(H.make_points(rng, names, 4))
-        inex = "true" if imp.get("inexact") else "false"
+        # ("relative": values far below one are around; compared to 12 digits RELATIVELY, an absolute tolerance would accept 0)
+        inex = "true" if imp.get("inexact") and not case.get("relative") else "false"
         if dl:
             # a derived resource calculated on the leaves: compared with the routine whose leaves declare it, the resource
             # reaching a node through repetitions only
